@@ -127,6 +127,14 @@ def confirm (c : Cfg) (s : State) (sid : Nat) (cid : Option Nat) (now : Int) : S
         { s2 with userDict := s2.userDict ++ [e], pending := s2.pending ++ [e] }
       | none => s2
 
+/-- `ConversionSession::find_candidate`: the candidates of a session carry the ids `"0"`, `"1"`, … (`idx.to_string()` in
+the handlers) and the id of the request is compared with them **as a string**: the first candidate whose id equals it. -/
+def candIndex (n : Nat) (id : String) : Option Nat := (List.range n).find? fun i => toString i == id
+
+/-- UpdateFrequency as it arrives: session id already resolved to its issue number, candidate id still the request's string -/
+def confirmId (c : Cfg) (s : State) (sid : Nat) (id : String) (now : Int) : State :=
+  confirm c s sid ((s.sessions.find? (·.sid == sid)).bind fun sess => candIndex sess.cands.length id) now
+
 inductive RegKind | guess | commonNoun | properNoun
   deriving DecidableEq, Repr
 
